@@ -656,9 +656,9 @@ def _judge(c):
                          c, None, cst)
         rho = float(max(abs(np.linalg.eigvals(WD))))
         # conditioning of the dominant eigenvalue: a defective eigenvalue of multiplicity k moves by ulp^(1/k) under a
-        # one-ulp perturbation of the entries, for any eigenvalue solver; do not charge that to the library
+        # one-ulp (of the largest entry) dense perturbation, for any eigenvalue solver; do not charge that to the library
         ulp = 6e-8 if dt == np.float32 else 1.2e-16
-        pert = D * (1 + ulp * np.random.RandomState(0).choice([-1.0, 1.0], size=D.shape))
+        pert = D + ulp * np.abs(D).max() * np.random.RandomState(0).choice([-1.0, 1.0], size=D.shape)
         sens = abs(float(max(abs(np.linalg.eigvals(pert)))) - rho0) / rho0
         rt = min(max(rt, 2000 * sens), 5e-2)
         if abs(rho - sr) > rt * sr:
